@@ -213,12 +213,21 @@ func judgeSrc(src []byte) engine.Outcome {
 // shrink proposes smaller configurations: every line removed, every token
 // removed, every gap reduced to one space. Candidates outside the domain pass
 // trivially in judge and are therefore never adopted.
+//
+// A leading byte order mark is first tried away; the other candidates keep it
+// (it is a prefix of the text, not part of the gap before the first token).
 func shrink(c engine.Case) []engine.Case {
 	d := c.Data.(Data)
 	var out []engine.Case
+	prefix := ""
+	if strings.HasPrefix(d.Src, cfgcorpus.BOM) {
+		prefix = cfgcorpus.BOM
+		d.Src = strings.TrimPrefix(d.Src, cfgcorpus.BOM)
+		out = append(out, engine.Case{ID: "shrunk:" + fmt.Sprintf("%q", d.Src), Data: Data{Src: d.Src, Base: d.Base}})
+	}
 	add := func(s string) {
 		if s != d.Src {
-			out = append(out, engine.Case{ID: "shrunk:" + fmt.Sprintf("%q", s), Data: Data{Src: s, Base: d.Base}})
+			out = append(out, engine.Case{ID: "shrunk:" + fmt.Sprintf("%q", prefix+s), Data: Data{Src: prefix + s, Base: d.Base}})
 		}
 	}
 	lines := strings.SplitAfter(d.Src, "\n")
